@@ -23,7 +23,7 @@ MANIFEST = dict(
          'stone/frontend/ir_generator.py that follows `generate_IR` pass by pass - registration with '
          '`_check_canonical_name_available`, `_add_imports_to_env`, `_populate_type_attributes` (aliases, then the '
          'depth-first on-demand population of parents with `_resolution_in_progress`, `_resolve_type` / `_resolve_args` / '
-         '`_instantiate_data_type`, `UserDefined.set_attributes`, `Alias.set_attributes`, the implicit `other`), the type '
+         '`_instantiate_data_type`, `UserDefined.set_attributes`, `Alias.set_attributes`, the implicit `other`), `_merge_patches` (the members of a patch are appended to the declaration with its canonical name), the type '
          'tests of `_populate_field_defaults`, `_populate_enumerated_subtypes` / `set_enumerated_subtypes`, the three types '
          'and `deprecated by` of routes - with one explicit error kind per `InvalidSpec` site. For every input on which '
          'the model succeeds: `compile_eq_denote` (the Api equals `denote`, a specification-level reading of the '
@@ -44,7 +44,7 @@ MANIFEST = dict(
          'the model`s, when the real message belongs to a modelled site. The hypothesis of the theorems (`compile = ok`) '
          'and their decidable conclusions (closed, = denote) are evaluated by the driver on every case. '
          '(TESTED, not proved) Everything the compile model leaves out - docs, defaults` values, annotations, examples, '
-         'patches, route attributes, versions` bookkeeping, the implicit members other than `other` - is decided by '
+         'the examples of patches, route attributes, versions` bookkeeping, the implicit members other than `other` - is decided by '
          'differential testing against a second implementation: harness/expected.py computes an independent reference image '
          'from the generating model (never from stone), harness/apisig.py dumps the real Api, and the two are compared '
          'field by field for every generated model under the reference layout, a random layout and with the namespace doc '
@@ -57,7 +57,7 @@ MANIFEST = dict(
          'comparison, C11 / C03 are about the parser), harness/specgen.py (model -> text renderer), harness/apisig.py, '
          'harness/expected.py (the reference reading). The compile model leaves out, and its theorems say nothing about: '
          'docs and doc references, annotations applied to members (annotation definitions only occupy their names), '
-         'examples, patches (specs with a patch are skipped by comp.compile; generated without), route attributes and the '
+         'examples (also those a patch adds), route attributes and the '
          'stone_cfg namespace (dropped from both dumps), the value of a default (C10), `Api.normalize` (covered by the '
          'ordering theorems). Type references with mixed literal / type positional arguments or a type passed by keyword '
          'are outside its input (counted, skipped). The arguments of the built-in types are C01`s model '
@@ -178,7 +178,7 @@ def run(ck):
     ])
     ck.note('the type graph (members, parents, aliases, routes` types, enumerated subtypes: faithfulness, closure, acyclicity) is '
             'PROVED for the compile model and tied to the code by comp.compile; docs, defaults, annotations, examples, '
-            'patches and route attributes are DIFFERENTIAL / INVARIANT TESTING against harness/expected.py, not a proof')
+            'and route attributes are DIFFERENTIAL / INVARIANT TESTING against harness/expected.py, not a proof')
     nj = {k[len('faithful.not_judged.'):]: v for k, v in ck.stats.items() if k.startswith('faithful.not_judged.')}
     if nj:
         ck.note('observed and not judged (renderings affected): %s' % json.dumps(nj, sort_keys=True))
